@@ -22,7 +22,7 @@ import (
 //           the second variant, to a third master that owns no slot yet
 // alphabet  set g0 migrating to m1 | migrate ka | migrate kb | finalise g0 | failover m0->r0 (old master stays
 //           up as replica) | failover with the old master down | refresh round |
-//           GET ka | SET ka v | INCR kb | DEL ka | MGET ka kb kc | SET kc v
+//           GET ka | SET ka v | INCR kb | DEL ka | MGET ka kb kc | SET kc v | outage of m0 with a command meanwhile
 // bound     depth (quick 4, thorough 5); default schedule, fair random seed choice
 // oracle    no reply is a MOVED/ASK error; every reply equals the single-server reply (INCR makes a lost or
 //           duplicated execution visible); a keyed single-key command is accepted by exactly one node;
@@ -30,7 +30,7 @@ import (
 // ---------------------------------------------------------------------------
 
 var c04ops = []string{"migrating", "migrate-ka", "migrate-kb", "finalise", "failover", "failover-master-down", "refresh-round",
-	"GET ka", "SET ka", "INCR kb", "DEL ka", "MGET", "SET kc"}
+	"GET ka", "SET ka", "INCR kb", "DEL ka", "MGET", "SET kc", "m0-outage"}
 
 type c04case struct {
 	Ops []int `json:"ops"`
@@ -143,6 +143,23 @@ func c04run(cs c04case) (sig, detail string) {
 					grace++
 				}
 				continue
+			case "m0-outage":
+				// the owner of g0 is unreachable for a while (a command arrives meanwhile and may fail), then it is
+				// back on the same address with its data
+				if cl.Owner[0] != w.m0 || w.m0.Down {
+					continue
+				}
+				w.m0.Stop()
+				sched.WaitQuiescent()
+				if _, err := c.Do("GET", w.ka); err != nil {
+					sig, detail = "downstream-connection-lost", fmt.Sprintf("history [%s] step %d: %v", cs, i, err)
+					return
+				}
+				sched.WaitQuiescent()
+				w.m0.Up()
+				sched.WaitQuiescent()
+				phase = "after an outage of the owner"
+				continue
 			case "GET ka":
 				args = []string{"GET", w.ka}
 			case "SET ka":
@@ -231,7 +248,7 @@ func c04histories(env sched.Env) *sched.Report {
 	n := 0
 	var rec func(ops []int)
 	rec = func(ops []int) {
-		if len(ops) > 0 && ops[len(ops)-1] >= 7 {
+		if len(ops) > 0 && ops[len(ops)-1] >= 7 && ops[len(ops)-1] <= 12 {
 			n++
 			if n%env.NShards == env.Shard {
 				if sched.PastDeadline(env.Deadline) {
